@@ -583,6 +583,78 @@ pub fn c01(rep: &mut Report, thorough: bool) {
     }
 }
 
+/// C01 on sub-displays that do not release BUSY together and that ignore commands while busy: the image
+/// memory after [write; refresh; write(new image); refresh] must be the same as on always-idle sub-displays
+pub fn c01_busy(rep: &mut Report, thorough: bool) {
+    let rb = (W / 8) as usize;
+    let img_a = crate::props::c15::pixels(rb, H as usize, 0xC01B1);
+    let img_b = crate::props::c15::pixels(rb, H as usize, 0xC01B2);
+    let seqs: Vec<Vec<Op12>> = vec![
+        vec![Op12::Write1(img_a.clone()), Op12::Refresh, Op12::Write1(img_b.clone())],
+        vec![Op12::Write2(img_a.clone()), Op12::Refresh, Op12::Write2(img_b.clone()), Op12::Refresh],
+        vec![Op12::Write1(img_a.clone()), Op12::BeginRefresh, Op12::PollUntilIdle, Op12::Write1(img_b.clone())],
+        // (no partial refresh here: the unchanged driver sends PartialOut right behind DisplayRefresh, i.e. while
+        // the sub-displays are busy, so the command-ignoring model does not fit that call)
+        vec![Op12::Refresh, Op12::Write1Partial((632, 484, 32, 16), vec![0x5A; 64]), Op12::Refresh, Op12::Write1(img_b.clone())],
+    ];
+    let snapshot = |rig: &Rig12| -> Vec<(u64, u64)> { rig.board.borrow().chips.iter().map(|c| (crate::prng::hash_bytes(&c.planes[0].data), crate::prng::hash_bytes(&c.planes[1].data))).collect() };
+    for (si, seq) in seqs.iter().enumerate() {
+        let mut idle = Rig12::ready();
+        let mut ok = true;
+        for o in seq {
+            ok &= idle.apply(o).is_ok();
+        }
+        if !ok {
+            continue;
+        }
+        let want = snapshot(&idle);
+        let skews: Vec<usize> = if thorough { vec![0, 1, 2, 3, 4] } else { vec![4, 3, 0] }; // 4 = all equal
+        for skew in skews {
+            for extra in if thorough { vec![1u32, 3, 6] } else { vec![3u32] } {
+                rep.eval(P);
+                rep.nontrivial(hash_str(&format!("12c01busy|{}|{}|{}", si, skew, extra)));
+                let mut rig = Rig12::new(|b| b.busy_mode = BusyMode::Physical);
+                let _ = rig.apply(&Op12::Reset);
+                let _ = rig.apply(&Op12::Init(0));
+                {
+                    let mut b = rig.board.borrow_mut();
+                    for (ci, c) in b.chips.iter_mut().enumerate() {
+                        c.busy.default_d = 2 + if ci == skew { extra } else { 0 };
+                        c.drop_while_busy = true;
+                    }
+                }
+                let mut fine = true;
+                for o in seq {
+                    if !rig.apply(o).is_ok() {
+                        fine = false;
+                        break;
+                    }
+                }
+                if !fine {
+                    rep.count("ops_failing_for_other_reasons", 1);
+                    continue;
+                }
+                let got = snapshot(&rig);
+                rep.count("busy_memory_snapshots_compared", 4);
+                for ci in 0..4 {
+                    if got[ci] != want[ci] {
+                        let dropped = rig.board.borrow().chips[ci].dropped_while_busy;
+                        fail(
+                            rep,
+                            seq.last().unwrap().name(),
+                            "primary-plane-differs",
+                            vec![format!("chip={}", CHIP_NAMES[ci]), "panel-busy".into()],
+                            format!("image memory of {} differs from the same calls on always-idle sub-displays when {} stays busy {} polls longer and busy sub-displays ignore commands ({} commands ignored by it)", CHIP_NAMES[ci], if skew < 4 { CHIP_NAMES[skew] } else { "no sub-display" }, extra, dropped),
+                            J::obj().set("panel", P).set("history", seq.iter().map(|o| o.to_json()).collect::<Vec<_>>()).set("slow_chip", skew).set("extra_polls", extra),
+                        );
+                        break;
+                    }
+                }
+            }
+        }
+    }
+}
+
 // ------------------------------------------------------------------------------------------ C06
 /// partial writes of the 12.48in driver (window per chip = intersection, data exactly once)
 pub fn c06(rep: &mut Report, thorough: bool, seed: u64) {
@@ -638,6 +710,14 @@ pub fn c10(rep: &mut Report) {
     let mut seqs: Vec<Vec<Op12>> = ops12().into_iter().map(|o| vec![o]).collect();
     seqs.push(vec![Op12::BeginRefresh, Op12::PollUntilIdle]);
     seqs.push(vec![Op12::Write1Partial((0, 0, W, H), small_rows(1)), Op12::RefreshPartial((0, 0, W, H))]);
+    // look-up tables of every length class: empty, one byte, one short of / exactly / beyond the register length
+    for reg in [0x20u8, 0x21, 0x22, 0x23, 0x24, 0x25] {
+        let full = if reg == 0x21 || reg == 0x25 { 42 } else { 60 };
+        for len in [0usize, 1, full - 1, full, full + 1, 2 * full] {
+            seqs.push(vec![Op12::SetLut(reg, (0..len).map(|i| (i * 7 + reg as usize) as u8).collect())]);
+        }
+    }
+    // pixel buffers shorter than one row are not legal; one row and k rows are (row wrap)
     for seq in seqs {
         let mut rig = Rig12::ready();
         for op in &seq {
